@@ -57,6 +57,8 @@ func c19Body(o c19Opts) func() {
 		if lerr != nil {
 			vrt.Failf("harness", "listen: %v", lerr)
 		}
+		raw := ln.(*listener).listener
+		vrt.OnCleanup(func() { raw.Close() })
 		total := o.sessions * o.streams
 		type acc struct {
 			conn net.Conn
